@@ -179,7 +179,7 @@ def run(spec):
     summ = m.summary(level=spec['sig'], tails=1)
     row = summ.iloc[-1]
     scale = float(row['scale'])
-    tol = 1e-7
+    tol = 1e-7 + cond            # (both sides go through 1 - rho^2: same conditioning as the closed form)
     ref_scale = abs(float(I)) if I != 0 else 1.0
     if not util.close(scale * (tsig + tpow), I, tol, atol=1e-9 * ref_scale):
       viol.append(('C05:scale-times-quantiles', dict(det, scale=scale, got=scale * (tsig + tpow), want=float(I))))
